@@ -815,8 +815,9 @@ func TestVerifC22(t *testing.T) {
 	r.Set("cases_enumerated", total)
 	r.Set("connections_opened", sum.Conns)
 	r.Set("max_pipelined_requests", lim.maxN)
+	r.Set("max_pipelined_requests_corr_family", lim.corrMaxN)
 	r.Set("worker_processes", workers)
-	r.Set("bound_completed", fmt.Sprintf("n <= %d pipelined requests; all families complete (%d cases)", lim.maxN, total))
+	r.Set("bound_completed", fmt.Sprintf("n <= %d pipelined requests (n <= %d in the corr family); all families complete (%d cases)", lim.maxN, lim.corrMaxN, total))
 	if ran != total && os.Getenv("C22_FAMILY") == "" {
 		r.NotExhaustive(fmt.Sprintf("%d of %d enumerated cases ran", ran, total))
 	}
